@@ -96,6 +96,7 @@ def sources(tier, seed, ctx):
     for j in range(nrand):
         srcs.append({'k': 'rand', 'seed': rng.randrange(10**9), 'n': rng.randint(4, 10), 'w': w, 'from': 'rand'})
     srcs += _scripted(tier)
+    srcs += [{'k': 'copy-diverge', 'which': w, 'how': h, 'from': 'scripted'} for w in ('or', 'xor', 'rename') for h in ('copy', 'deepcopy')]
     ctx['gen_note'] = '; '.join(note)
     return srcs
 
@@ -137,7 +138,46 @@ def probes():
     return H.finding_probes(PROP)
 
 
+def _copy_then_diverge(src):
+    """A named composition, a copy, then the ORIGINAL goes its own way (the block is removed and another circuit with the
+    same gate labels is attached under the same name, or gates are renamed): extracting the block from the COPY still gives
+    the circuit that was attached when the copy was taken."""
+    import copy as _copy
+    from cirbo.core.circuit import Circuit, gate as G
+    from ..project import project as _p
+
+    base = Circuit()
+    base.add_inputs(['a', 'b'])
+    base.emplace_gate('m', G.OR, ('a', 'b'))
+    base.set_outputs(['m'])
+    first = Circuit()
+    first.add_inputs(['s', 't'])
+    first.emplace_gate('f', G.AND, ('s', 't'))
+    first.set_outputs(['f'])
+    other = Circuit()
+    other.add_inputs(['s', 't'])
+    other.emplace_gate('f', G.OR if src['which'] != 'xor' else G.XOR, ('s', 't'))
+    other.set_outputs(['f'])
+    exc = ''
+    before = after = {'g': {}, 'ord': [], 'i': [], 'o': [], 'u': {}, 'b': {}}
+    try:
+        base.connect_circuit(first, ['a', 'm'], ['s', 't'], name='blk')
+        snap = {'copy': _copy.copy, 'deepcopy': _copy.deepcopy}[src['how']](base)
+        before = _p(snap.get_block('blk').into_circuit())
+        if src['which'] == 'rename':
+            base.rename_gate('blk@f', 'renamed')
+        else:
+            base.remove_block('blk')
+            base.connect_circuit(other, ['a', 'm'], ['s', 't'], name='blk')
+        after = _p(snap.get_block('blk').into_circuit())
+    except Exception as e:
+        exc = type(e).__name__
+    return {'kind': 'same', 'what': 'block-extracted-from-a-copy-changed-when-the-original-was-reworked', 'a': before, 'b': after, 'exc': exc, 'src': src}
+
+
 def record(src):
+    if src['k'] == 'copy-diverge':
+        return _copy_then_diverge(src)
     if src['k'] == 'wide':
         from .. import hist
         from ..project import project as _p
@@ -159,7 +199,7 @@ def record(src):
 
 
 def nontrivial(case):
-    if case['kind'] == 'connectwide':
+    if case['kind'] in ('connectwide', 'same'):
         return True
     return any(s['act']['a'] == 'connect' and s['ret'] == 'ok' and (s['act']['tc'] or s['act']['name']) for s in case['steps'])
 
@@ -167,6 +207,8 @@ def nontrivial(case):
 def features(case):
     if case['kind'] == 'connectwide':
         return {'wide-right-connection'}
+    if case['kind'] == 'same':
+        return {'copy-then-diverge'}
     seen = H.step_features(case, {'connect'})
     for s in case['steps']:
         a = s['act']
